@@ -81,6 +81,9 @@ def library : List (String × String) := [
   ("Optional::filter_if", "self.zip(signal.filter(q!(|b| *b))).map(q!(|(d, _)| d))"),
   ("Optional::is_some", "self.map(q!(|_| ())) .into_singleton() .map(q!(|o| o.is_some()))"),
   ("Optional::into_singleton", "let none: syn::Expr = parse_quote!(::std::option::Option::None); let none_singleton = Singleton::new( self.location.clone(), HydroNode::SingletonSource { value: none.into(), first_tick_only: false, metadata: self .location .new_node_metadata(Singleton::<Option<T>, L, B>::collection_kind()), }, ); self.map(q!(|v| Some(v))).unwrap_or(none_singleton)"),
+  ("Optional::or", "check_matching_location(&self.location, &other.location); if L::is_top_level() && !B::BOUNDED && let Some(tick) = self.location.try_tick() { let self_location = self.location().clone(); let out = or_inside_tick( self.snapshot(&tick, nondet!(/** eventually stabilizes */)), other.snapshot(&tick, nondet!(/** eventually stabilizes */)), ) .latest(); Optional::new(self_location, out.ir_node.replace(HydroNode::Placeholder)) } else { Optional::new( self.location.clone(), HydroNode::ChainFirst { first: Box::new(self.ir_node.replace(HydroNode::Placeholder)), second: Box::new(other.ir_node.replace(HydroNode::Placeholder)), metadata: self.location.new_node_metadata(Self::collection_kind()), }, ) }"),
+  ("Optional::unwrap_or", "let res_option = self.or(other.into()); Singleton::new( res_option.location.clone(), HydroNode::Cast { inner: Box::new(res_option.ir_node.replace(HydroNode::Placeholder)), metadata: res_option .location .new_node_metadata(Singleton::<T, L, B>::collection_kind()), }, )"),
+  ("Optional::zip", "let other: Optional<O, L, B> = other.into(); check_matching_location(&self.location, &other.location); if L::is_top_level() && let Some(tick) = self.location.try_tick() { let self_location = self.location().clone(); let out = zip_inside_tick( self.snapshot(&tick, nondet!(/** eventually stabilizes */)), other.snapshot(&tick, nondet!(/** eventually stabilizes */)), ) .latest(); Optional::new(self_location, out.ir_node.replace(HydroNode::Placeholder)) } else { zip_inside_tick(self, other) }"),
   ("Optional::zip_inside_tick", "check_matching_location(&me.location, &other.location); Optional::new( me.location.clone(), HydroNode::CrossSingleton { left: Box::new(me.ir_node.replace(HydroNode::Placeholder)), right: Box::new(other.ir_node.replace(HydroNode::Placeholder)), metadata: me .location .new_node_metadata(Optional::<(T, O), L, B>::collection_kind()), }, )"),
   ("Optional::or_inside_tick", "check_matching_location(&me.location, &other.location); Optional::new( me.location.clone(), HydroNode::ChainFirst { first: Box::new(me.ir_node.replace(HydroNode::Placeholder)), second: Box::new(other.ir_node.replace(HydroNode::Placeholder)), metadata: me .location .new_node_metadata(Optional::<T, L, B>::collection_kind()), }, )"),
   ("Tick::cycle", "let cycle_id = self.flow_state().borrow_mut().next_cycle_id(); ( TickCycleHandle::new(cycle_id, Location::id(self)), S::create_source(cycle_id, self.clone().with_consistency_of()).defer_tick(), )"),
